@@ -59,6 +59,9 @@ def vectors(ctx):
     V = []
     for k in range(ctx.pick(500, 12000)):
         n = rng.choice([0, 1, 1, 2, 2, 3])
+        busy = k % 32 == 3
+        if busy:
+            n = rng.randint(6, 9)         # a busy buffer: most 100-us windows hold part of a frame, amplitudes mixed
         frames, sent, amps, gaps = [], [], [], []
         same_amp = rng.randrange(300, 1401)
         for _ in range(n):
@@ -69,9 +72,11 @@ def vectors(ctx):
                 f = rand_valid(rng)
                 sent.append(f)
             frames.append(f)
-            amps.append(same_amp if k % 3 else rng.randrange(300, 1401))
+            amps.append(same_amp if (k % 3 and not busy) else rng.randrange(300, 1401))
+            if busy:
+                amps[-1] = rng.choice([1400, 1350, 1400, 1300, rng.randrange(300, 520)])
             flen = 16 * len(f)            # one frame length (the 56 / 112 data bits) of noise is the minimum the statement allows
-            gaps.append(flen + rng.choice([0, 0, 1, 2, 16, rng.randrange(0, 2 * flen)]))
+            gaps.append(flen + (rng.choice([0, 0, 1, 2, 16]) if busy else rng.choice([0, 0, 1, 2, 16, rng.randrange(0, 2 * flen)])))
         amin = min(amps) if amps else 300
         # noise class: "quiet" = every noise sample below 0.2 x the weakest pulse (minus a margin for the comparison
         # against 0.2 x max of the slicing window when amplitudes differ); "ten_db" = up to -10 dB of the weakest pulse
@@ -90,14 +95,16 @@ def vectors(ctx):
             cls = "flat_ten_db"
         lead = rng.randrange(0, 40)
         tail = 420 + rng.randrange(0, 200)
-        if k % 16 == 9 and frames:
+        if k % 8 == 1 and frames and not busy:
             # the buffer boundaries themselves: first frame at sample 0, last frame ending on the very last sample (a quiet
             # 100-us window for the noise floor is then provided between the frames)
             gaps = [max(g, 16 * len(f) + 260) for g, f in zip(gaps, frames)]
             if len(frames) >= 2:
                 lead, tail = 0, 0
                 gaps[-1] = 0
-            elif k % 32 == 9:
+                if rng.random() < 0.6:
+                    amps[-1] = min(1400, max(amps) + rng.randrange(40, 300))      # the frame at the very end is the strongest
+            elif k % 16 == 9:
                 lead = 0                          # a single frame: flush with the start ...
             else:
                 lead, tail = 260 + rng.randrange(0, 100), 0   # ... or with the end of the buffer
